@@ -418,6 +418,10 @@ class CallGraph:
             if fn.attr in ("_call_fn", "_fn", "poll_callback", "_poll_callback"):
                 cs.kind = "dynamic"
                 return cs
+            if self._is_external_object(fn.value, f):
+                # e.g. _PATTERN = re.compile(...); _PATTERN.match(s): a host-library object, not a repo class
+                cs.kind, cs.ext = "external", "extobj." + fn.attr
+                return cs
             cands = [] if fn.attr.startswith("__") else self.methods_by_name.get(fn.attr, [])
             if cands:
                 cs.targets, cs.kind = list(cands), "byname"
@@ -426,6 +430,34 @@ class CallGraph:
             return cs
         cs.kind = "dynamic"
         return cs
+
+    def _is_external_object(self, e: ast.AST, f: Func) -> bool:
+        """e is a name bound exactly once (module level, or in f) to the result of a call into an imported
+        host library (re.compile(...), struct.Struct(...)): its methods are the library's, not the repo's."""
+        if not isinstance(e, ast.Name):
+            return False
+        if self._is_local_var(e.id, f) and not any(isinstance(n, ast.Assign) and any(isinstance(t, ast.Name) and t.id == e.id for t in n.targets) for n in f.own_nodes()):
+            return False
+        cache = self.__dict__.setdefault("_extobj_cache", {})
+        key = (f.module.name, e.id, id(f))
+        if key in cache:
+            return cache[key]
+        defs = []
+        scopes = [f.own_nodes()] if any(isinstance(n, ast.Assign) and any(isinstance(t, ast.Name) and t.id == e.id for t in n.targets) for n in f.own_nodes()) else [f.module.tree.body]
+        for sc in scopes:
+            for n in sc:
+                if isinstance(n, ast.Assign) and any(isinstance(t, ast.Name) and t.id == e.id for t in n.targets):
+                    defs.append(n.value)
+        ok = False
+        if len(defs) == 1 and isinstance(defs[0], ast.Call):
+            d = dotted(defs[0].func)
+            if d is not None:
+                head = d.split(".")[0]
+                imp = f.module.imports.get(head)
+                if imp and imp[0].startswith("ext:"):
+                    ok = True
+        cache[key] = ok
+        return ok
 
     def _param_callables(self, name: str, g: Func) -> Optional[List[Func]]:
         """Parameter `name` of g is called inside g (or a closure of g).  If every call site of g in the tree
